@@ -11,7 +11,7 @@
    assembles the output; the invariants compare it with the closed form  f_b^t(u_b). *)
 EXTENDS Integers, Sequences, FiniteSets, TLC
 
-CONSTANTS MaxN, MaxB
+CONSTANTS MaxN, MaxB, MaxHist
 VARIABLES prog, M, pc, out
 vars == <<prog, M, pc, out>>
 
@@ -90,4 +90,14 @@ RepeatOK == (pc = "done" /\ prog.loop = "repeat") =>
     LET roll == AssembleP([prog EXCEPT !.loop = "rollout", !.init = TRUE], Closed)
     IN  IF prog.vm = "none" THEN out = roll[prog.n + 1]
         ELSE \A b \in 1..prog.B : out[b] = (IF prog.vm = "outer" THEN roll[b][prog.n + 1] ELSE roll[prog.n + 1][b])
+\* ---------------------------------------------------------------- construction histories
+\* Building a stepper is a pure function of its arguments: the result of a call does not depend on which constructions (eager, under jit,
+\* under vmap, under jit(vmap)) happened before in the same process, nor on their order.  The histories below are replayed on grid sizes
+\* no other construction has touched, so that any process-wide state (caches, globals) is cold at the start of each history.
+BuildModes == {"eager", "jit", "vmap", "jitvmap"}
+Histories == UNION { [1..m -> BuildModes] : m \in 1..MaxHist }
+\* abstract semantics of a history: every construction yields the same stepper, so every call yields F applied to the same input
+HistValue(h, i) == F([vp |-> FALSE], 1, U0(1))
+ASSUME \A h \in Histories : \A i \in DOMAIN h : HistValue(h, i) = HistValue(h, 1)
+ASSUME PrintT(<<"histories", Histories>>)
 =============================================================================
